@@ -271,6 +271,8 @@ func streamReplay(c *ctx, f []string) {
 	switch f[2] {
 	case "piter":
 		pageIterReplay(c, f)
+	case "siter":
+		sessIterReplay(c, f)
 	case "0", "1", "2":
 		unwrapDoc(c, int(f[2][0]-'0'), f[3] == "1", doc, "replay")
 	default:
